@@ -648,6 +648,25 @@ pub fn run_codec(scratch: &Path, out: &mut Out, tier: &str, seed: u64) {
         };
         out.emit(&line);
         let _ = std::fs::remove_file(&p);
+        // the same bytes as the only WAL segment of a fresh directory: Cas::open must replay them or fail cleanly
+        if i % (if q { 3 } else { 1 }) == 0 {
+            let d = scratch.join("openwal");
+            let _ = std::fs::remove_dir_all(&d);
+            std::fs::create_dir_all(&d).unwrap();
+            std::fs::write(d.join("0_index.wal"), seg).unwrap();
+            mark(&json!({"ev": "open_wal", "bytes": seg}));
+            let r = catch_unwind(|| {
+                Cas::<Vec<u8>>::open_with_recover(&d, Config { fail_on_integrity_errors: false, num_ops_per_wal: NonZeroU64::new(1_000_000).unwrap(), ..Default::default() })
+                    .map(|(c, _)| c.read_index_state().len())
+            });
+            let (st, n) = match r {
+                Err(_) => ("panic", 0),
+                Ok(Err(_)) => ("err", 0),
+                Ok(Ok(n)) => ("ok", n),
+            };
+            out.emit(&json!({"ev": "open_wal", "bytes": seg, "sums": sums_of(seg), "st": st, "n": n}));
+            let _ = std::fs::remove_dir_all(&d);
+        }
     }
     // ---- Cas::open on crafted `index` files (String keys; all keys ASCII unless flagged)
     let opendir = scratch.join("openidx");
